@@ -481,9 +481,9 @@ V('memo-quantify-persistent', 'C03', 'breaking',
         ordvar = sorted(qvars)"""),
    (B, "        self._ite_table: dict[", "        self._qcache = dict()\n        self._ite_table: dict[")],
   'R-MEMO/stale-memo/dd.bdd.BDD.quantify', 'memo kept on the manager')
-V('memo-cofactor-unsorted', 'C04', 'breaking',
+V('memo-cofactor-unsorted', 'C04', 'benign',
   [(B, "        ordvar = sorted(level_values)", "        ordvar = list(level_values)")],
-  'R-MEMO/unsorted-cursor/dd.bdd.BDD.cofactor', 'cursor over unsorted levels')
+  None, 'the cursor is sound for an unsorted list of levels (only slower)')
 V('memo-mutable-default', 'C10', 'breaking',
   [(B, """            d:
                 dict[
